@@ -56,6 +56,11 @@ var Objects = []*Obj{
 	{},
 	{S: "a\x1bjson b: {\"q\":1} 100% <tag> & é日本 ", N: math.MinInt64, L: []string{"", "\x1bjson", "json"},
 		M: map[string]int{"k:1": 7, "\x1bjson": -1}, In: &Obj{S: "inner\x1b", N: math.MaxInt64, X: map[string]string{"\"": "}"}}},
+	// strings and keys that LOOK like JSON escapes (a documentation snippet, a regular expression, a Windows path): the
+	// backslash is an ordinary character of the Go string; next to them the characters json.Marshal writes as escapes
+	{S: `re: \u003cb\u003e \u0026amp; \u2028 \n \\ \" \`, N: 2, L: []string{`\u003c`, `\u003e`, `\u0026`, "<>&\u2028\u2029", `C:\new\table`, `\`, `"`, `\\u003c`},
+		M: map[string]int{`\u003c`: 1, `\u0026\u003e`: 2, "<": 3, `\`: 4}, In: &Obj{S: `\u003C\U003c\u003`, X: map[string]string{`\u0026`: `\u0026`, "&": "<"}},
+		X: map[string]string{`k\u003ev`: `</script>\u003c/script\u003e`, `\"`: `\\`}},
 }
 
 // SizeTargets are the exact lengths of err.Error() of the sized chains: around powers of two up to 64 KiB.
@@ -200,7 +205,7 @@ func TestC19Exhaustive(t *testing.T) {
 	owned := int64(0)
 	{
 		styles := append([]Wrap{Styles[1], Styles[3]}, RawStyles...)
-		objects := append([]*Obj{Objects[0], Objects[2]}, RawObjects...)
+		objects := append([]*Obj{Objects[0], Objects[2], Objects[3]}, RawObjects...)
 		intos := append([]string{""}, IntoKinds...)
 		enum.Lists(len(styles), 2, 0, 1, func(idx []int) {
 			wraps := make([]Wrap, len(idx))
@@ -387,6 +392,13 @@ var pieces = []string{"", " ", ": ", ":", "ctx", "a: b", "100%", "%w", "%s%d%v",
 	"rpc error: code = NotFound desc = ", "code = ", "file does not exist", "file already exists", "internal system error", "canceled",
 	"system communication error", "permission denied", "unimplemented"}
 
+// escPieces: texts that LOOK like JSON escapes - a backslash followed by u and four hex digits (for code points that
+// json.Marshal itself writes that way: < > & U+2028 U+2029 ESC NUL, for others, upper-case and truncated forms, a
+// surrogate pair), the two-character escapes, a doubled and a lone backslash, quotes - and the characters themselves.
+// In a Go string the backslash is an ordinary character: an object holding such a text must come back unchanged.
+var escPieces = []string{`\u003c`, `\u003e`, `\u0026`, `\u003c`, `\u003e`, `\u0026`, `\u2028`, `\u2029`, `\u001b`, `\u0000`, `\u00e9`, `\u003C`, `\U003c`, `\u003`, `\u`, `\ud83d\ude00`,
+	`\n`, `\t`, `\r`, `\b`, `\f`, `\/`, `\"`, `\\`, `\`, `\`, `"`, `'`, "`", "<", ">", "&", "<", ">", "&", "\u2028", "\u2029", "&amp;", "&lt;", "</script>", `<a href="x">`, `C:\new\u003c`, `\\u003c`, `\\\u0026`}
+
 // rawPieces: bytes that are not valid UTF-8 (escaped form, see Raw) and genuine U+FFFD characters.
 var rawPieces = []string{Esc([]byte{0xff}), Esc([]byte{0x80}), Esc([]byte{0xc3}), "caf" + Esc([]byte{0xe9}), Esc([]byte{0xed, 0xa0, 0x80}), Esc([]byte{0xf0, 0x9f, 0x98}),
 	Esc([]byte{0xef, 0xbf}), Esc([]byte{0xef, 0xbf, 0xbd}), Esc([]byte{0xc0, 0xaf}), "\uFFFD", "\uFFFD", "a\uFFFDb", "\uFFFD\uFFFD", "\uFFFD" + Esc([]byte{0xbd})}
@@ -415,6 +427,9 @@ func genText(t *rapid.T, label string) string {
 		s = rapid.String().Draw(t, label+"Str")
 	default:
 		ps := rapid.SliceOfN(rapid.OneOf(rapid.SampledFrom(pieces), rapid.SampledFrom(pieces), rapid.StringN(0, 6, -1)), 0, 5).Draw(t, label+"Pieces")
+		s = strings.Join(ps, "")
+	case 3: // texts that look like JSON escapes, among ordinary pieces
+		ps := rapid.SliceOfN(rapid.OneOf(rapid.SampledFrom(escPieces), rapid.SampledFrom(escPieces), rapid.SampledFrom(pieces)), 1, 5).Draw(t, label+"EscPieces")
 		s = strings.Join(ps, "")
 	}
 	s = strings.ToValidUTF8(s, "?")
